@@ -793,7 +793,7 @@ pub fn corpus_replay(ctx: &mut Ctx) {
 pub fn check(ctx: &mut Ctx) {
 	ctx.rule = "messages = constructed JSON-RPC requests (ids over null/u64 boundaries/escaped strings, registered x {sync,async,blocking,blocking-that-panics} and unknown methods, \
 		params any JSON or absent, extra members, member order, generated whitespace, 0..127(+) leading blanks) x structural/textual mutators, token-level texts, arbitrary bytes; \
-		each sent over HTTP (tower service) and over one long-lived WebSocket connection (text or binary frame), followed by a sentinel call. Oracle = own JSON-RPC classifier over an own strict JSON reader + handler model. \
+		each sent over HTTP and over one long-lived WebSocket connection (text or binary frame) of the same entry point {TowerService 60%, low-level http::call_with_service_builder + ws::connect 30%, TowerService built through set_http_middleware 10%}, followed by a sentinel call. Oracle = own JSON-RPC classifier over an own strict JSON reader + handler model. \
 		Non-trivial = message whose first non-blank byte (within the 128-byte window) is '{'; distinct by message bytes."
 		.into();
 	ctx.assumptions = vec![
